@@ -3,7 +3,7 @@
    the value of every probability term, so the theorems hold for every distribution. Division is total on Q
    (x / 0 = 0); Fraction.simplify, which cancels factors, carries the hypothesis that the denominator is not zero. *)
 From Coq Require Import List Bool QArith.
-From Y0 Require Import Base.ListSet Dsl.Syntax Dsl.Build Dsl.Canon Dsl.Sem Proofs.DslP Proofs.SemP.
+From Y0 Require Import Base.ListSet Dsl.Syntax Dsl.Build Dsl.Canon Dsl.Sem Dsl.Laws Proofs.DslP Proofs.SemP Proofs.LawP Proofs.SumSimpP Proofs.CanonSemP.
 Import ListNotations.
 Open Scope Q_scope.
 
@@ -35,6 +35,26 @@ Theorem C13_fraction_simplification m r n d :
   ~ eval m d r == 0 -> eval m (frac_simplify (EFrac n d)) r == eval m n r / eval m d r.
 Proof. exact (eval_frac_simplify m r n d). Qed.
 
+(* Sum.simplify uses probability calculus (marginal consistency): it holds in every LAWFUL model (Dsl/Laws.v), for a joint
+   over simple variables with distinct names summed over distinct bare variables *)
+Theorem C13_sum_simplification m pop ch rs r :
+  lawful m -> Aok pop ch [] = true -> forallb plain rs = true -> NoDup rs ->
+  is_err (sum_simplify (EProb pop ch []) rs) = false ->
+  eval m (sum_simplify (EProb pop ch []) rs) r == sum_over m (names rs) (eval m (EProb pop ch [])) r.
+Proof. exact (fun Hl Ha Hp Hn => eval_sum_simplify_joint m Hl pop ch rs Ha Hp Hn r). Qed.
+
+(* Sum.safe(..., simplify=True) of any well-formed summand *)
+Theorem C13_sum_constructor_with_simplification m c rs r :
+  lawful m -> okp c = true -> forallb plain rs = true ->
+  is_err (sum_safe_gen false c rs true) = false ->
+  eval m (sum_safe_gen false c rs true) r == sum_over m (names (upgrade_ordering rs)) (eval m c) r.
+Proof. exact (fun Hl => eval_sum_safe_simplify m Hl c rs r). Qed.
+
+(* finite sums commute: the order in which range variables are listed is immaterial *)
+Theorem C13_order_of_summation_is_immaterial m ns ns' f r :
+  Permutation.Permutation ns ns' -> ext_fun f -> sum_over m ns f r == sum_over m ns' f r.
+Proof. exact (fun Hp => sum_over_perm m ns ns' Hp f r). Qed.
+
 Theorem C13_chain_expansion_yields_single_child_factors pop ch pa reorder ordering :
   ch <> [] ->
   match chain_expand (EProb pop ch pa) reorder ordering with
@@ -50,4 +70,7 @@ Print Assumptions C13_sum_constructor.
 Print Assumptions C13_marginalisation.
 Print Assumptions C13_normalised_marginalisation.
 Print Assumptions C13_fraction_simplification.
+Print Assumptions C13_sum_simplification.
+Print Assumptions C13_sum_constructor_with_simplification.
+Print Assumptions C13_order_of_summation_is_immaterial.
 Print Assumptions C13_chain_expansion_yields_single_child_factors.
